@@ -63,6 +63,7 @@ type Run struct {
 	Samples []string
 	Viol    []Violation
 	Notes   map[string]interface{}
+	violSeen map[string]int
 	start   time.Time
 }
 
@@ -103,14 +104,21 @@ func (r *Run) Case(input, goOut string) {
 	r.cases.WriteByte('\n')
 	r.NCases++
 	if len(r.Samples) < 12 && (r.NCases%977 == 1) {
-		r.Samples = append(r.Samples, input+" => "+goOut)
+		r.Samples = append(r.Samples, clip(input, 300)+" => "+clip(goOut, 200))
 	}
 }
 
 func (r *Run) Count(key string) { r.Hist[key]++ }
 
+// Violate records a direct Spec violation. At most 5 records per (kind, sig) and 400 in total are kept (all are
+// counted in the histogram), so that a frequently reproduced known finding cannot crowd out a new violation.
 func (r *Run) Violate(kind, sig string, input interface{}, detail string) {
-	if len(r.Viol) < 200 {
+	if r.violSeen == nil {
+		r.violSeen = map[string]int{}
+	}
+	k := kind + "\x00" + sig
+	r.violSeen[k]++
+	if r.violSeen[k] <= 5 && len(r.Viol) < 400 {
 		r.Viol = append(r.Viol, Violation{kind, sig, input, detail})
 	}
 	r.Hist["violation:"+kind]++
@@ -175,3 +183,10 @@ type atomicString struct{ v atomicValue }
 
 // Current records the case about to be executed (cheap; called before every risky case).
 func (r *Run) Current(s string) { current.v.Store(s); addProgress() }
+
+func clip(s string, n int) string {
+	if len(s) <= n {
+		return s
+	}
+	return s[:n] + fmt.Sprintf("…(+%d bytes)", len(s)-n)
+}
